@@ -1,5 +1,6 @@
 import LenaModel.DriverUtil
 import LenaModel.Model.C14
+import LenaModel.Model.C14Tok
 /-! Model driver for C14.
 
 Values `V`: a number is an opaque scalar, a string a string, `{"l":[..]}` a list, `{"t":[..]}` a tuple, an
@@ -11,18 +12,25 @@ Expressions `E`:
   | {"k":"combine","args":[E..],"kw":D} | {"k":"other"}
 Values of the flow: {"d":data} (bare) or {"d":data,"c":D}.
 Request:
-  {"op":"run","names":[..],"fx":bool,"exprs":[E..],"vals":[value..]}
+  {"op":"run","names":[..],"fx":bool,"nk":bool,"spec":bool,"exprs":[E..],"vals":[value..]}
     -> {"e":<exception>,"phase":"init"}                       a constructor raised
-     | {"vcs":[D..],"outs":[{"d":data,"c":D} | {"e":<exception>} ..],"wf":[bool..],"namesok":bool}
+     | {"vcs":[D..],"outs":[{"d":data,"c":D} | {"e":<exception>} ..]}  plus, with "spec":true, "wf":[bool..],"namesok":bool,…
        `vcs` the var_contexts of the constructed variables, `outs[i]` = the variables applied one after the
        other (`seqCall`) to `vals[i]`, `wf[i]` = `chainWFb` (the hypothesis `ChainWF` of `compose_eq_sequence`)
-       for `vals[i]`, `namesok` = `namesOKb` (hypothesis `NamesOK`).
+       for `vals[i]`, `namesok` = `namesOKb` (hypothesis `NamesOK`); specification side: `cok[i]` = `chainOKb`,
+       `sdata[i]` = `composeData`, `cdata[i]` = `chainData`, `stypes` = `argsTypes`, `sup[i]` = the fold of `UP` from
+       `preDict` when `wf[i]` (else null), `lok` = all expressions are plain variables with `leavesOKb`, `lctx` = their `Leaf.ctx`.
   {"op":"attr","names":[..],"fx":bool,"nk":bool,"expr":E,"ops":[O..]}   attribute access on one variable, in order:
     O = {"get":s} -> {"r":V}|{"e":..}   {"set":s,"v":V} -> {"r":null}   {"item":i} -> {"r":k,"vc":D}|{"e":..}
       | {"call":value} -> {"d":..,"c":D}|{"e":..}   {"vc":true} -> {"vc":D}
     -> {"r":[..]} | {"e":..,"phase":"init"}
+  {"op":"tok","names":[..],"fx":bool,"nk":bool,"expr":E,"val":value,"reps":k}   token model (Model/C14Tok.lean):
+    the objects of the variable's var_context, then of the value's context are numbered in pre-order (`labelT`);
+    the variable is applied `k` times, each time to the previous result (`callT`, `callsT`)
+    -> {"next":n,"vc":TVdict,"r":[{"c":TVdict,"w":[tokens written],"next":n,"sep":bool,"spine":[..],"erased":D} | {"e":..,"sep":bool} ..],"calls":[..]}
+    TV: number | string | {"t":[..]} | {"l":[..],"k":tok} | {"d":[slots..],"k":tok}
 `nk` (optional, default false): `Compose` honours its `name` keyword (notes/C14_defect_2.patch). -/
-open Lean Lena.Drv Lena.C14
+open Lean Lena.Drv Lena.C14 Lena.C14.Tok
 
 inductive Data where
   | int (i : Int)
@@ -103,6 +111,33 @@ def toValue (j : Json) : Option (Value Data) :=
     if (getD j "c").isNull then some (.bare d)
     else (toD (getD j "c")).map (Value.pair d)
 
+/-! values with identities: `{"t":[..]}` a tuple, `{"l":[..],"k":tok}` a list, `{"d":[slots..],"k":tok}` a dictionary -/
+partial def toTV (j : Json) : Option TV :=
+  match j with
+  | .str s => some (.str s)
+  | .obj _ =>
+    match (j.getObjVal? "t").toOption, (j.getObjVal? "l").toOption, (j.getObjVal? "d").toOption,
+          (nat? (getD j "k")) with
+    | some (.arr a), _, _, _ => (a.toList.mapM toTV).map TV.tuple
+    | _, some (.arr a), _, some k => (a.toList.mapM toTV).map (TV.list k)
+    | _, _, some (.arr a), some k => (a.toList.mapM toTSlot).map (TV.dict k)
+    | _, _, _, _ => none
+  | _ => (int? j).map TV.int
+where toTSlot (j : Json) : Option (Option TV) :=
+  if j.isNull then some none else (toTV j).map some
+
+partial def ofTV : TV → Json
+  | .int i => ofInt i
+  | .str s => Json.str s
+  | .tuple l => Json.mkObj [("t", Json.arr (l.map ofTV).toArray)]
+  | .list k l => Json.mkObj [("l", Json.arr (l.map ofTV).toArray), ("k", ofNat k)]
+  | .dict k l => Json.mkObj [("d", Json.arr (l.map (fun | none => Json.null | some v => ofTV v)).toArray), ("k", ofNat k)]
+
+def toTDict (j : Json) : Option (Nat × TSlots) :=
+  match toTV j with
+  | some (.dict k l) => some (k, l)
+  | _ => none
+
 def handle (j : Json) : Json :=
   match str? (getD j "op") with
   | some "run" =>
@@ -122,10 +157,29 @@ def handle (j : Json) : Json :=
             match seqCall names fx vars x with
             | .ok (d, c) => Json.mkObj [("d", ofData d), ("c", ofD c)]
             | .error e => Json.mkObj [("e", errName e)])
-          -- the hypotheses of the theorems (`NamesOK`, `ChainWF`) for every value, as Boolean checks
-          let wf := vals.map (fun x => Json.bool (chainWFb names (cvarOf names x) (vars.map Variable.varCtx)))
-          Json.mkObj [("vcs", ofList (fun v => ofD v.varCtx) vars), ("outs", Json.arr outs.toArray),
-                      ("wf", Json.arr wf.toArray), ("namesok", Json.bool (namesOKb names))]
+          let base : List (String × Json) :=
+            [("vcs", ofList (fun v => ofD v.varCtx) vars), ("outs", Json.arr outs.toArray)]
+          if !((bool? (getD j "spec")).getD false) then Json.mkObj base
+          else
+            -- the hypotheses of the theorems (`NamesOK`, `ChainWF`) for every value, as Boolean checks, and the
+            -- specification side (the definitions the theorems are stated with), executed on the same case:
+            -- `chainOKb` (syntactic hypothesis of `compose_eq_sequence_expr`), `composeData`, `chainData`, `argsTypes`,
+            -- the fold of `UP` from `preDict` (right-hand side of `seqCall_result`), `leavesOKb` and `Leaf.ctx`
+            let ctxs := vars.map Variable.varCtx
+            let wfl := vals.map (fun x => chainWFb names (cvarOf names x) ctxs)
+            let cok := vals.map (fun x => Json.bool (chainOKb names (cvarOf names x) exprs))
+            let sdata := vals.map (fun x => ofData (composeData Data.tuple exprs (getDataContext names x).1))
+            let sup := (vals.zip wfl).map (fun (x, w) =>
+              if w then ofD (ctxs.foldl (UP names) (preDict names (cvarOf names x))) else Json.null)
+            let leaves := exprs.filterMap Expr.asLeaf
+            let lok := leaves.length == exprs.length && leavesOKb names leaves
+            Json.mkObj (base ++
+              [("wf", Json.arr (wfl.map Json.bool).toArray), ("namesok", Json.bool (namesOKb names)),
+               ("cok", Json.arr cok.toArray), ("sdata", Json.arr sdata.toArray),
+               ("stypes", ofList ofV (argsTypes names exprs)), ("sup", Json.arr sup.toArray),
+               ("lok", Json.bool lok),
+               ("lctx", if lok then ofList (fun l => ofD (Leaf.ctx names l)) leaves else Json.null),
+               ("cdata", Json.arr (vals.map (fun x => ofData (chainData vars (getDataContext names x).1))).toArray)])
     | _, _, _, _ => err "bad run args"
   | some "attr" =>
     match (arr? (getD j "names")).bind (fun a => a.toList.mapM str?), bool? (getD j "fx"),
@@ -175,6 +229,47 @@ def handle (j : Json) : Json :=
         let (_, out) := ops.toList.foldl step (v0, [])
         Json.mkObj [("r", Json.arr out.toArray)]
     | _, _, _, _ => err "bad attr args"
+  | some "tok" =>
+    match (arr? (getD j "names")).bind (fun a => a.toList.mapM str?), bool? (getD j "fx"),
+          toExpr (getD j "expr"), toValue (getD j "val"), nat? (getD j "reps") with
+    | some names, some fx, some e, some x, some reps =>
+      let nk := (bool? (getD j "nk")).getD false
+      match evalExpr names fx nk Data.tuple e with
+      | .error er => Json.mkObj [("e", errName er), ("phase", "init")]
+      | .ok none => err "tok: expression is not a Variable"
+      | .ok (some v) =>
+        -- number the objects of the variable, then those of the value's context (as the harness does with id())
+        match labelT 0 (.dict v.varCtx) with
+        | (.dict vt vc, n1) =>
+          let (ctx, next) : Option (Nat × TSlots) × Nat :=
+            match x with
+            | .bare _ => (none, n1)
+            | .pair _ c =>
+              match labelT n1 (.dict c) with
+              | (.dict ct cs, n2) => (some (ct, cs), n2)
+              | _ => (none, n1)
+          -- the steps of `callsT`, each with the hypothesis `sepB` and the spine of the value it was applied to
+          let rec go (k : Nat) (next : Nat) (ctx : Option (Nat × TSlots)) (acc : List Json) : List Json :=
+            match k with
+            | 0 => acc
+            | k + 1 =>
+              let sep := sepB next vt vc ctx
+              let spine := spineTokens names ctx
+              match callT names fx next vt vc ctx with
+              | .error er => acc ++ [Json.mkObj [("e", errName er), ("sep", Json.bool sep)]]
+              | .ok r =>
+                go k r.next (some (r.ctxTok, r.ctx))
+                  (acc ++ [Json.mkObj [("c", ofTV (.dict r.ctxTok r.ctx)), ("w", ofList ofNat r.writes), ("next", ofNat r.next),
+                                       ("sep", Json.bool sep), ("spine", ofList ofNat spine),
+                                       ("erased", ofD (eraseS r.ctx))]])
+          let steps := go reps next ctx []
+          -- the same iteration through `callsT` (the definition the iteration theorem is about)
+          let viaCalls := (callsT names fx vt vc reps next ctx).map
+            (fun | .ok r => ofNat r.next | .error er => Json.str (errName er))
+          Json.mkObj [("r", Json.arr steps.toArray), ("calls", Json.arr viaCalls.toArray), ("next", ofNat next),
+                      ("vc", ofTV (.dict vt vc))]
+        | _ => err "tok: label"
+    | _, _, _, _, _ => err "bad tok args"
   | _ => err "unknown op"
 
 def main : IO Unit := run handle
